@@ -37,6 +37,8 @@ ORACLES = {
     "O_shift": "shift_oracles of C06_line_shift_equivariant: tokens whose line would default to 0 carry a map "
                "(corr: oracle:mapped); opaque directives / eval-rst are line-equivariant (metamorphic pairs: constant line "
                "shift of the wrapper's children); no include directive (an included file keeps its own line numbers)",
+    "O_fence": "= O_fence_content (Coq: Hypothesis O_fence : fence_oracle env orc in Nest/WrapProofs.v, MoreProofs.v, ShiftProofs.v; "
+               "correspondence tests oracle:fence and oracle:fence-model)",
     "O_adm": "docutils admonition classes: option_spec/arguments/has_content as adm_class/admt_class and run() = one "
              "state.nested_parse(content, content_offset, node) (+ inline_text(title) for 'admonition') "
              "(corr: class attributes + predicted nested_render_text call sequence)",
@@ -107,23 +109,25 @@ def canon(node):
     return (node.tagname, attrs, tuple(canon(c) for c in node.children))
 
 
-def rubricise(cs):
-    """canonical children with every section replaced by rubric + its content (headings excepted, C05)"""
+def rubricise(cs, depth=0):
+    """The C05 relation, explicitly: a heading that is a section at top level (nesting depth d, the headings of a
+    generated body never jump a level) is, inside a wrapper, a rubric with level=d, the same ids/names and the same
+    title content, followed by the section's content.  The top-level side is rewritten into that form; the wrapper
+    side keeps its rubrics (with their level attribute) as they are."""
     out = []
     for c in cs:
         if c[0] == "section":
             kids = c[2]
             if kids and kids[0][0] == "title":
-                out.append(("rubric", c[1], kids[0][2]))
-                out += rubricise(kids[1:])
+                attrs = tuple(sorted(c[1] + (("level", repr(depth + 1)),)))
+                out.append(("rubric", attrs, kids[0][2]))
+                out += rubricise(kids[1:], depth + 1)
             else:
-                out += rubricise(kids)
-        elif c[0] == "rubric":
-            out.append(("rubric", tuple(a for a in c[1] if a[0] != "level"), c[2]))
+                out += rubricise(kids, depth + 1)
         elif c[0] == "#text":
             out.append(c)
         else:
-            out.append((c[0], c[1], tuple(rubricise(c[2]))))
+            out.append((c[0], c[1], tuple(rubricise(c[2], depth))))
     return out
 
 
@@ -295,8 +299,10 @@ def gen_case(rng, force=None):
     headings = rng.random() < 0.15
     allow = {"directive"} | ({"heading"} if headings else set())
     X = G.body(rng, names, allow=frozenset(allow))
-    if headings and not X[0].startswith("#"):
-        X = ["# Top " + rng.choice(G.WORDS), ""] + X
+    if headings:
+        names.hlevel = 1
+        X = G.body(rng, names, allow=frozenset(allow))
+        X = ["# Top " + rng.choice(G.WORDS[:11]), ""] + X
     case = {"X": X}
     if r < 0.7:
         case["layers"] = G.gen_wrapper(rng, X)
@@ -621,6 +627,8 @@ def check_case(ctx, case):
         return ok
     if case.get("usability"):
         return check_usability(ctx, case)
+    if case.get("rst_include_md"):
+        return check_rst_include_md(ctx, case)
     if case.get("outside_in"):
         return check_outside_in(ctx, case)
     if case.get("heading_offset"):
@@ -716,12 +724,16 @@ def check_heading_offset(ctx, case):
 # All nested parses share one markdown-it env (and the document registries): whatever a nested parse adds -
 # also the very first reference definition of the whole document - is there for every later one.
 
+TOP_IN_PLACE = ("include", "subst", "subst-include")     # segments whose text is at top level once pasted in place
+
+
 def gen_chain(rng):
     own_top = rng.random() < 0.5
     nseg = rng.randint(2, 4)
     segs, defs, n = [], [], 0          # defs: (kind, label, toplevel_in_place)
     for si in range(nseg):
-        kind = rng.choice(["include", "include", "subst", "note", "note-include"])
+        kind = rng.choice(["include", "include", "subst", "note", "note-include",
+                           "subst-include", "note-subst-include", "subst-note-include"])   # interplay (round 4)
         lines = []
         n += 1
         lines.append(f"filler{n} " + G.words(rng, 1, 3))
@@ -729,7 +741,7 @@ def gen_chain(rng):
         usable = [d for d in defs]
         rng.shuffle(usable)
         for (dk, lab, top_in_place) in usable[:rng.randint(0, 3)]:
-            if dk == "refdef" and kind in ("include", "subst") and not top_in_place:
+            if dk == "refdef" and kind in TOP_IN_PLACE and not top_in_place:
                 continue        # pasted at top level it would be an outer use of an inner definition (known finding)
             n += 1
             use = {"refdef": f"[go{n}][{lab}]", "footnote": f"fnuse{n}[^{lab}]", "target": f"[tg{n}](#{lab})"}[dk]
@@ -744,7 +756,7 @@ def gen_chain(rng):
             lines += [""] + {"refdef": [f"[{lab}]: https://{lab}.example.org/p"],
                              "footnote": [f"[^{lab}]: note {lab}"],
                              "target": [f"({lab})=", f"target para {lab}"]}[dk]
-            defs.append((dk, lab, kind in ("include", "subst")))
+            defs.append((dk, lab, kind in TOP_IN_PLACE))
         segs.append({"kind": kind, "lines": lines})
         if rng.random() < 0.3:
             fts = [d for d in defs if d[0] != "refdef"]
@@ -778,6 +790,21 @@ def chain_docs(case):
         elif k == "note-include":
             files[f"seg{i}.md"] = "\n".join(lines) + "\n"
             wrapped += ["````{note}", f"```{{include}} seg{i}.md", "```", "````", ""]
+            plain += ["````{note}"] + lines + ["````", ""]
+        elif k == "subst-include":            # a substitution whose value is an include directive
+            files[f"seg{i}.md"] = "\n".join(lines) + "\n"
+            subs[f"seg{i}"] = f"```{{include}} seg{i}.md\n```"
+            wrapped += ["{{seg%d}}" % i, ""]
+            plain += lines + [""]
+        elif k == "note-subst-include":       # an include inside a substitution inside a note
+            files[f"seg{i}.md"] = "\n".join(lines) + "\n"
+            subs[f"seg{i}"] = f"```{{include}} seg{i}.md\n```"
+            wrapped += ["````{note}", "{{seg%d}}" % i, "````", ""]
+            plain += ["````{note}"] + lines + ["````", ""]
+        elif k == "subst-note-include":       # a substitution whose value is a note that includes a file
+            files[f"seg{i}.md"] = "\n".join(lines) + "\n"
+            subs[f"seg{i}"] = f"````{{note}}\n```{{include}} seg{i}.md\n```\n````"
+            wrapped += ["{{seg%d}}" % i, ""]
             plain += ["````{note}"] + lines + ["````", ""]
         else:
             wrapped += lines + [""]
@@ -822,6 +849,33 @@ def eval_chain(case):
         return False, "transparent:chain", "document with include/substitution differs from the text pasted in place: " \
             + str(first_diff(a, b)), show(b), show(a)
     return True, None, None, None, None
+
+
+def check_rst_include_md(ctx, case):
+    """eval-rst that includes a Markdown file through docutils' own include directive with
+    :parser: myst_parser.docutils_ : a separate document is parsed (no shared registries - the property's include clause
+    is about the {include} directive), so: totality always, and the same nodes for definition-free text"""
+    from lib.impl import scratch_dir
+    X = case["X"]
+    with scratch_dir() as d:
+        src = os.path.join(d, "main.md")
+        with open(os.path.join(d, "inc.md"), "w", encoding="utf8") as f:
+            f.write("\n".join(X) + "\n")
+        wrapped = ["before paragraph", "", "```{eval-rst}", ".. include:: inc.md", "   :parser: myst_parser.docutils_", "```",
+                   "", "after paragraph"]
+        plain = ["before paragraph", ""] + X + ["", "after paragraph"]
+        try:
+            dw, _ = parse("\n".join(wrapped) + "\n", source_path=src)
+            dp, _ = parse("\n".join(plain) + "\n", source_path=src)
+        except Exception as e:
+            ctx.fail(f"exception:{type(e).__name__}:rst-include-md", case, f"rendering raised {e!r}", None, repr(e))
+            return False
+    a, b = rubricise([canon(c) for c in dw.children]), rubricise([canon(c) for c in dp.children])
+    if a != b:
+        ctx.fail("transparent:rst-include-md", case, "eval-rst include of a Markdown file differs from the text in place: "
+                 + str(first_diff(a, b)), expected=show(b), observed=show(a))
+        return False
+    return True
 
 
 def usability_doc(kind, what, where):
@@ -916,6 +970,15 @@ def search(ctx):
         ctx.search_cases += 1
         ctx.count("chain:generated")
         check_case(ctx, gen_chain(rng))
+    # eval-rst including a Markdown file through docutils' include (:parser:), definition-free bodies
+    for i in range(ctx.budget(40, 400, 300)):
+        X = G.body(rng, allow=frozenset({"directive"}))
+        # docutils' own include splits the file with str.splitlines: keep its separators out of this route
+        if any(t in l for l in X for t in ("[^", "]: ", ")=", "][")) or any(ord(ch) in SEPS for l in X for ch in l):
+            X = ["plain alpha *beta* `code` %d" % i, "", "- item one", "- item two", "", "> quote", "", "```{note}", "inner", "```"]
+        ctx.search_cases += 1
+        ctx.count("interplay:rst-include-md")
+        check_case(ctx, {"rst_include_md": True, "X": X})
     n = ctx.budget(700, 9000, 5000)
     nfail = 0
     for i in range(n):
